@@ -46,7 +46,7 @@ import (
 // crc32("acgt") = 0 mod 2, 2 mod 3; crc32("acga") = 1 mod 2, 2 mod 3:
 // chunk count 2 separates the two sequences, chunk counts 1 and 3 put them in the same chunk.
 var c06seqs = []string{"acgt", "acga"}
-var c06cats = []string{"", "x", "y"}
+var c06cats = []string{"", "x", "y", c06na} // index 3: the literal NA value
 
 const c06catKey = "c"
 const c06mergeKey = "k"
@@ -54,9 +54,9 @@ const c06na = "NA"
 
 type c06rec struct {
 	S int `json:"s"` // index in c06seqs
-	C int `json:"c"` // category attribute c: 0 absent, 1 "x", 2 "y"
+	C int `json:"c"` // category attribute c: 0 absent, 1 "x", 2 "y", 3 the literal "NA"
 	N int `json:"n"` // count: 1 (no count attribute) or 2
-	M int `json:"m"` // merge attribute k: 0 absent, 1 scalar "u", 2 already merged (merged_k map)
+	M int `json:"m"` // merge attribute k: 0 absent, 1 scalar "u", 2 already merged (merged_k map), 3 scalar "NA"
 }
 
 type c06cfg struct {
@@ -100,6 +100,8 @@ func c06build(i int, rc c06rec, parsed bool) *obiseq.BioSequence {
 			s.SetAttribute(c06mergeKey, "u")
 		case 2:
 			s.SetAttribute(obiseq.StatsOnSlotName(c06mergeKey), obiseq.StatsOnValues(c06mergedMap(rc.N)))
+		case 3:
+			s.SetAttribute(c06mergeKey, c06na)
 		}
 		return s
 	}
@@ -115,6 +117,8 @@ func c06build(i int, rc c06rec, parsed bool) *obiseq.BioSequence {
 		a[c06mergeKey] = "u"
 	case 2:
 		a[obiseq.StatsOnSlotName(c06mergeKey)] = c06mergedMap(rc.N)
+	case 3:
+		a[c06mergeKey] = c06na
 	}
 	if len(a) > 0 {
 		b, err := json.Marshal(a)
@@ -159,7 +163,7 @@ func c06model(recs []c06rec, cfg c06cfg) map[string]*c06class {
 		cl.Members++
 		if cfg.Merge {
 			switch rc.M {
-			case 0:
+			case 0, 3:
 				cl.Stats[c06na] += rc.N
 			case 1:
 				cl.Stats["u"] += rc.N
@@ -305,7 +309,7 @@ type c06outcome struct {
 	fatal    []string
 }
 
-var c06timeout = 60 * time.Second
+var c06timeout = 120 * time.Second
 
 func c06setGlobals(cfg c06cfg) {
 	obioptions.SetBatchSize(cfg.Batch)
@@ -417,8 +421,8 @@ func c06caseString(c c06case) string {
 		if i > 0 {
 			b.WriteString(" ")
 		}
-		fmt.Fprintf(&b, "[%s c=%s count=%d k=%s]", c06seqs[rc.S], []string{"-", "x", "y"}[rc.C], rc.N,
-			[]string{"-", "u", "merged" + c06statsString(c06mergedMap(rc.N))}[rc.M])
+		fmt.Fprintf(&b, "[%s c=%s count=%d k=%s]", c06seqs[rc.S], []string{"-", "x", "y", "NA"}[rc.C], rc.N,
+			[]string{"-", "u", "merged" + c06statsString(c06mergedMap(rc.N)), "NA"}[rc.M])
 	}
 	cf := c.Cfg
 	fmt.Fprintf(&b, " batch=%d chunks=%d disk=%v nosingleton=%v workers=%d parsed=%v -c=%v -m=%v",
@@ -710,6 +714,14 @@ func c06batches(n int) []int {
 // record alphabets
 func c06alphabet(name string) []c06rec {
 	var t []c06rec
+	if name == "ANA" { // one sequence; c {absent, literal "NA"}; (count,k) in {(1,absent),(2,scalar u),(2,merged),(1,scalar "NA")}
+		for _, c := range []int{0, 3} {
+			for _, nm := range [][2]int{{1, 0}, {2, 1}, {2, 2}, {1, 3}} {
+				t = append(t, c06rec{0, c, nm[0], nm[1]})
+			}
+		}
+		return t
+	}
 	for _, rc := range c06recTypes() {
 		nm := [2]int{rc.N, rc.M}
 		small := nm == [2]int{1, 0} || nm == [2]int{2, 1} || nm == [2]int{2, 2}
@@ -821,6 +833,7 @@ func c06blocks(thorough bool) []c06block {
 		add(c06block{Name: "mem/full", Alphabet: "A12", Nmin: 3, Nmax: 3, AllOrders: true, Cfgs: full(false, both)})
 		add(c06block{Name: "mem/full-parsed", Alphabet: "A24", Nmin: 3, Nmax: 3, AllOrders: true, Cfgs: full(false, []bool{true})})
 		add(c06block{Name: "mem/full-parsed", Alphabet: "A8", Nmin: 4, Nmax: 4, AllOrders: true, Cfgs: full(false, []bool{true})})
+		add(c06block{Name: "mem/na-literal", Alphabet: "ANA", Nmax: 3, AllOrders: true, Cfgs: full(false, both)})
 		add(c06block{Name: "mem/options", Alphabet: "A36", Nmax: 2, AllOrders: true,
 			Cfgs: c06axes{c06batchEnds, []int{1, 2, 3}, false, both, []int{1, 2}, []bool{true}, other}.cfgs})
 		add(c06block{Name: "disk/full", Alphabet: "A24", Nmax: 2, AllOrders: true, Cfgs: full(true, []bool{true})})
@@ -841,6 +854,8 @@ func c06blocks(thorough bool) []c06block {
 	add(c06block{Name: "mem/full", Alphabet: "A36", Nmax: 3, AllOrders: true, Cfgs: full(false, both)})
 	add(c06block{Name: "mem/full", Alphabet: "A12", Nmin: 4, Nmax: 4, AllOrders: true, Cfgs: full(false, both)})
 	add(c06block{Name: "mem/full", Alphabet: "A6", Nmin: 5, Nmax: 5, AllOrders: true, Cfgs: full(false, both)})
+	add(c06block{Name: "mem/na-literal", Alphabet: "ANA", Nmax: 3, AllOrders: true, Cfgs: full(false, both)})
+	add(c06block{Name: "disk/na-literal", Alphabet: "ANA", Nmax: 2, AllOrders: true, Cfgs: full(true, []bool{true})})
 	add(c06block{Name: "mem/options", Alphabet: "A36", Nmax: 2, AllOrders: true,
 		Cfgs: c06axes{c06batches, []int{1, 2, 3}, false, both, []int{1, 2}, both, other}.cfgs})
 	add(c06block{Name: "mem/options", Alphabet: "A12", Nmin: 3, Nmax: 3, AllOrders: true,
@@ -879,7 +894,7 @@ func c06enumerate(r *verifkit.Result, thorough bool, visit func(k, j int, blk st
 	}
 	r.Bound("blocks", desc)
 	r.Bound("sequences", c06seqs)
-	r.Bound("alphabets", "A36 = 2 seq x c{absent,x,y} x count{1,2} x k{absent,scalar,merged map}; A24 = A36 without c=y; A12 = 2 seq x c{absent,x} x (count,k) in {(1,absent),(2,scalar),(2,merged)}; A8 = 2 seq x c{absent,x} x (count,k) in {(1,absent),(2,merged)}; A6 = A12 without c")
+	r.Bound("alphabets", "A36 = 2 seq x c{absent,x,y} x count{1,2} x k{absent,scalar,merged map}; A24 = A36 without c=y; A12 = 2 seq x c{absent,x} x (count,k) in {(1,absent),(2,scalar),(2,merged)}; A8 = 2 seq x c{absent,x} x (count,k) in {(1,absent),(2,merged)}; A6 = A12 without c; ANA = 1 seq x c{absent,literal NA} x (count,k) in {(1,absent),(2,u),(2,merged),(1,literal NA)}")
 	// small inputs of every block first: a run stopped by its deadline has covered every block up to some size
 	only := os.Getenv("C06_ONLY") // debugging aid: restrict to the blocks whose name has this prefix
 	if only != "" {
@@ -950,7 +965,10 @@ type c06last struct {
 }
 
 func c06init() {
-	debug.SetGCPercent(400)
+	if os.Getenv("GOGC") == "" {
+		debug.SetGCPercent(200)
+	}
+	debug.SetMemoryLimit(1 << 30) // soft limit: the readers allocate 1 MB buffers per chunk file
 	log.SetOutput(io.Discard)
 	log.AddHook(c06fatal)
 	log.StandardLogger().ExitFunc = func(int) { runtime.Goexit() }
@@ -994,7 +1012,11 @@ func c06child(t *testing.T) {
 			t.Fatal(err)
 		}
 		note(c06pos{}, c)
-		x.eval(c)
+		// failures may depend on the scheduling: the case is repeated (sampled) until it fails
+		t0 := time.Now()
+		for i := 0; i < 500 && len(r.Violations) == 0 && time.Since(t0) < 90*time.Second; i++ {
+			x.eval(c)
+		}
 		checkpoint(c06pos{}, true)
 		return
 	}
@@ -1166,14 +1188,15 @@ func TestVerifC06(t *testing.T) {
 	fmt.Sscan(os.Getenv("VERIF_DEADLINE_S"), &deadline)
 
 	replay := r.ReplayCase() != nil
-	rounds := 1
-	if replay {
-		rounds = 20 // scheduling dependent failures: a replay runs the case up to 20 times
+	if !replay && os.Getenv("C06_ONLY") == "" && os.Getenv("C06_DRY") == "" {
+		for _, c := range []string{"runs_memory", "runs_disk", "runs_with_a_merge", "runs_dropping_a_singleton", "roundtrips_with_a_split"} {
+			r.RequireNonVacuous(c)
+		}
 	}
 	var from c06pos
 	var skip []c06pos
 	restarts := 0
-	for round := 0; round < rounds; {
+	for {
 		os.Remove(resPath)
 		os.Remove(lastPath)
 		cmd := exec.Command(os.Args[0], "-test.run", "^TestVerifC06$", "-test.count=1", "-test.timeout", "0")
@@ -1220,11 +1243,7 @@ func TestVerifC06(t *testing.T) {
 			from = next
 		}
 		if werr == nil && ok && (done || replay) {
-			round++
-			if replay && len(r.Violations) > 0 {
-				break
-			}
-			continue
+			break
 		}
 		if werr == nil && ok && !done {
 			restarts++
@@ -1283,7 +1302,7 @@ func TestVerifC06Bench(t *testing.T) {
 	recs := []c06rec{{0, 1, 1, 1}, {0, 1, 2, 2}, {1, 0, 1, 0}}
 	for _, disk := range []bool{false, true} {
 		for _, w := range []int{1, 2} {
-			n := 300
+			n := 1000
 			t0 := time.Now()
 			bad := 0
 			for i := 0; i < n; i++ {
@@ -1293,11 +1312,14 @@ func TestVerifC06Bench(t *testing.T) {
 					in[i] = c06build(i, rc, false)
 				}
 				o := c06runUniq(in, cfg)
-				if len(o.recs) != 3 {
+				if len(o.recs) != 2 {
 					bad++
 				}
 			}
-			fmt.Printf("disk=%v workers=%d: %v per run, %d/%d runs without 3 output records\n", disk, w, time.Since(t0)/time.Duration(n), bad, n)
+			var ms runtime.MemStats
+			runtime.ReadMemStats(&ms)
+			fmt.Printf("disk=%v workers=%d: %v per run, %d/%d runs without 2 output records; goroutines=%d heap=%dMB sys=%dMB\n", disk, w,
+				time.Since(t0)/time.Duration(n), bad, n, runtime.NumGoroutine(), ms.HeapAlloc>>20, ms.Sys>>20)
 		}
 	}
 }
